@@ -1,5 +1,6 @@
 import json,sys
 pid=sys.argv[1]
+single=len(sys.argv)>2 and sys.argv[2]=='single'
 props={json.loads(l)['id']:json.loads(l) for l in open('/verif/properties.jsonl')}
 p=props[pid]
 print(f"""You are helping test a verification framework for the C++ library google/draco (3D mesh / point-cloud compression). Your job is to act as a realistic *bug seeder*.
